@@ -10,6 +10,7 @@ import (
 	"github.com/nspcc-dev/neo-go/pkg/neotest"
 	"github.com/nspcc-dev/neo-go/pkg/smartcontract"
 	"github.com/nspcc-dev/neo-go/pkg/smartcontract/callflag"
+	"github.com/nspcc-dev/neo-go/pkg/smartcontract/nef"
 	"github.com/nspcc-dev/neo-go/pkg/smartcontract/trigger"
 	"github.com/nspcc-dev/neo-go/pkg/util"
 	"github.com/nspcc-dev/neo-go/pkg/vm/emit"
@@ -20,8 +21,23 @@ const anyT = smartcontract.AnyType
 
 // probe: forwards a call. call(h, m, f, args) / scall (same code, marked safe) / tcall (inside TRY, so that the
 // engine takes the "wrapped" private-DAO path of callExFromNative).
-func buildProbe(sender util.Uint160, name string) *neotest.Contract {
+// With other != nil the probe also has kcall<f>/kscall<f>: the same forwarding through a NEF method token
+// (CALLT -> contract.LoadToken) whose static call flags are f and whose callee is other.call / other.scall.
+func buildProbe(sender util.Uint160, name string, other *util.Uint160) *neotest.Contract {
 	a := newAsm()
+	var toks []nef.MethodToken
+	if other != nil {
+		for i, m := range []string{"call", "scall"} {
+			for f := 0; f < 16; f++ {
+				idx := i*16 + f
+				a.method(fmt.Sprintf("k%s%d", m, f), 4, false, anyT, func(w *io.BinWriter) {
+					emit.Instruction(w, opcode.CALLT, []byte{byte(idx), 0})
+					emit.Opcodes(w, opcode.RET)
+				})
+				toks = append(toks, nef.MethodToken{Hash: *other, Method: m, ParamCount: 4, HasReturn: true, CallFlag: callflag.CallFlag(f)})
+			}
+		}
+	}
 	off := a.method("call", 4, false, anyT, func(w *io.BinWriter) {
 		emit.Syscall(w, interopnames.SystemContractCall)
 		emit.Opcodes(w, opcode.RET)
@@ -38,7 +54,7 @@ func buildProbe(sender util.Uint160, name string) *neotest.Contract {
 	// self-administration used by the native matrix (ContractManagement.update/destroy act on the caller)
 	a.method("onNEP17Payment", 3, false, smartcontract.VoidType, func(w *io.BinWriter) { emit.Opcodes(w, opcode.CLEAR, opcode.RET) })
 	a.method("oracleCb", 4, false, smartcontract.VoidType, func(w *io.BinWriter) { emit.Opcodes(w, opcode.CLEAR, opcode.RET) })
-	return a.build(sender, name, nil, nil, nil, nil)
+	return a.build(sender, name, nil, nil, toks, nil)
 }
 
 // target: one method per abstract op, each with a safe-marked alias "<op>S" sharing the code.
@@ -228,11 +244,11 @@ func (v *env) deployAll() {
 	s := v.comHash
 	v.keyA, v.keyB = detKey(1), detKey(2)
 	v.U = buildPing(s, "verif-U")
-	v.P1 = buildProbe(s, "verif-P1")
-	v.P2 = buildProbe(s, "verif-P2")
+	v.P2 = buildProbe(s, "verif-P2", nil)
+	v.P1 = buildProbe(s, "verif-P1", &v.P2.Hash)
 	v.T = buildTarget(s, "verif-T", v.U.Hash)
 	v.S = v.buildSys(s, "verif-S", v.U.Hash)
-	for _, c := range []*neotest.Contract{v.U, v.P1, v.P2, v.T, v.S} {
+	for _, c := range []*neotest.Contract{v.U, v.P2, v.P1, v.T, v.S} {
 		v.e.DeployContract(t, c, nil)
 	}
 	for _, c := range []*neotest.Contract{v.T, v.S} {
